@@ -30,7 +30,8 @@ LEDGER = {
                      M("ESDTTransfer,issue,ESDTNFTTransfer,create")],
                     [M("ESDTNFTTransfer,MultiESDTNFTTransfer,create,flags", hs=("u0a", "u1a"), ptoks=("4e",), pshards=(0, 1), freeze=()), M("ESDTTransfer,issue,MultiESDTNFTTransfer,flags", pshards=(0, 1)), M("ESDTTransfer,issue,ESDTNFTTransfer,MultiESDTNFTTransfer,create", msgs=2, accsample=2)]),
                 need=dict(tok_ok=20, deliver_ok=5, deliver_err=1, refund_ok=1, overdraft_rej=1, alias_rej=1)),
-    "C02": dict(profile="supply", preds=["P02_Delta", "P02_Others", "P02_NoOverdraft", "NoNegative", "Conservation"],
+    "C02": dict(profile="supply", preds=["P02_Delta", "P02_Others", "P02_NoOverdraft", "P02_FreshNonce", "NoNegative", "Conservation"],
+                extra_runs=[("nonce", [], 0.5)],
                 mc=([M("mintburn,create,flags,issue", supply=3)],
                     [M("mintburn,create,flags,issue,ESDTTransfer", supply=3, ctr=2, accsample=6), M("mintburn,create,roles,issue", supply=3, hs=("u0a", "u0b"))]),
                 need=dict(supply_ok=20, overdraft_rej=2, role_rej=2)),
@@ -51,10 +52,11 @@ LEDGER = {
                 mc=([M("ESDTTransfer,kv,create,ESDTNFTTransfer,MultiESDTNFTTransfer", gas=(0, 9, 10, 11, 60, 1000), hs=("u0a", "u1a"), rejected=False)],
                     [M("ESDTTransfer,kv,create,ESDTNFTTransfer,MultiESDTNFTTransfer", gas=(0, 9, 10, 11, 60, 1000), hs=("u0a", "u1a"), rejected=False), M("metaops,mintburn,acct,create", gas=(0, 9, 10, 11, 20, 1000), hs=("u0a", "u1a"), rejected=False, accsample=4)]),
                 need=dict(gas_max=20, gas_rej=20, underfunded=20, priced=50)),
-    "C07": dict(profile="nonce", preds=["P07_ReturnedNonce", "P07_Handover", "P07_CtrOnlyByCreate", "CounterWithRole"],
+    "C07": dict(profile="nonce", preds=["P07_ReturnedNonce", "P07_Handover", "P07_CtrOnlyByCreate", "CounterWithRole", "P07_FaultNonce"],
+                extra_runs=[("nonce", ["-faults"], 0.25)],
                 mc=([M("create,handover", ctr=2), M("create,handover,ESDTNFTTransfer", ctr=2, hs=("u0a", "u1a"))],
                     [M("create,handover,ESDTNFTTransfer", ctr=2, accsample=2), M("create,handover,ESDTNFTTransfer,MultiESDTNFTTransfer", ctr=2, hs=("u0a", "u1a"), accsample=2)]),
-                need=dict(create_ok=15, handover_ok=2, handover_deliver=1)),
+                need=dict(create_ok=15, handover_ok=2, handover_deliver=1, faults_soft=3)),
     "C08": dict(profile="meta", preds=["P08_Conf", "P08_Create", "P08_OnlyUriAttr", "P08_UriAttrExact", "P08_WrongHash"],
                 mc=([M("create,metaops,ESDTNFTTransfer")],
                     [M("create,metaops,ESDTNFTTransfer,MultiESDTNFTTransfer", ctr=1), M("create,metaops,ESDTNFTTransfer", msgs=2, ctr=2, hs=("u0a", "u1a"), accsample=2)]),
